@@ -398,10 +398,18 @@ DYN_FILES = {
     'c06b/utils.py': 'import gin\n\n@gin.register\ndef make(x=None, y=None):\n  return ("b.utils", x, y)\n',
     'c06a/other.py': ('def build(x=None, y=None):\n  return ("a.other", x, y)\n\n'
                       'class K:\n  def __init__(self, x=None):\n    self.x = x\n'),
+    # a class registered by decorator inside a namespace class: its Python qualified name has a dot
+    'c06a/nested.py': ('import gin\n\nclass Models:\n  @gin.register\n  class Enc:\n'
+                       '    def __init__(self, x=None):\n      self.x = x\n'),
 }
-DYN_MODULES = ['c06a.utils', 'c06b.utils', 'c06a.other', 'Zc06.utils']
+DYN_MODULES = ['c06a.utils', 'c06b.utils', 'c06a.other', 'Zc06.utils', 'c06a.nested']
 DYN_TARGETS = {'c06a.utils': ['make'], 'c06b.utils': ['make'], 'c06a.other': ['build', 'K'],
-               'Zc06.utils': ['make']}
+               'Zc06.utils': ['make'], 'c06a.nested': ['Models.Enc']}
+
+
+def _dyn_obj(m, attr):
+  import functools, importlib  # pylint: disable=g-import-not-at-top,multiple-imports
+  return functools.reduce(getattr, attr.split('.'), importlib.import_module(m))
 DYN_REF_SCOPES = ['', 's1', 's2/t', 's1']
 DYN_FORMS = ['import {m}', 'import {m} as {a}', 'from {p} import {l}', 'from {p} import {l} as {a}']
 
@@ -420,6 +428,7 @@ def check_dyn(case):
         f.write(src)
     sys.path.insert(0, tmp)
     lines = ['from __gin__ import dynamic_registration']
+    labels_dyn = set()
     bound = {}
     model = {}          # (module, attr, param) -> value
     for mi, form, alias in case['imports']:
@@ -435,8 +444,10 @@ def check_dyn(case):
     for mi, ti, param, value, how in case['bindings']:
       m = DYN_MODULES[mi % len(DYN_MODULES)]
       attr = DYN_TARGETS[m][ti % len(DYN_TARGETS[m])]
-      if attr == 'K' and param == 'y':
+      if attr in ('K', 'Models.Enc') and param == 'y':
         param = 'x'
+      if attr == 'Models.Enc':
+        labels_dyn.add('dyn:decorator-registered-class-with-dotted-qualname')
       if how == 'text' and m in spelled:
         lines.append(f'{spelled[m]}.{attr}.{param} = {value!r}')
       else:
@@ -462,20 +473,20 @@ def check_dyn(case):
     gin.parse_config('\n'.join(lines) + '\n')
     for (m, attr, param), (value, how) in model.items():
       if how == 'late':
-        obj = getattr(importlib.import_module(m), attr)
+        obj = _dyn_obj(m, attr)
         try:
           gin.get_configurable(obj)
         except ValueError:
           gin.external_configurable(obj, module=m)
         gin.bind_parameter(('', gin.get_configurable(obj) and _selector_of(obj), param), value)
-    labels = {'kind:dynamic'}
+    labels = {'kind:dynamic'} | labels_dyn
     if any(h == 'late' for _, h in model.values()):
       labels.add('dyn:programmatic-binding-on-unimported-module')
 
     def observe():
       out = {}
       for (m, attr, param) in model:
-        obj = getattr(importlib.import_module(m), attr)
+        obj = _dyn_obj(m, attr)
         out[(m, attr, param)] = gin.get_bindings(obj).get(param, 'MISSING')
       return out
 
@@ -585,6 +596,13 @@ def check_case(case):
   for scope, sel, param, v, how in case['bindings']:
     items.append(('bind', (scope, sel, param), v, how))
   order = list(range(len(items)))
+  if case.get('earlier_config'):
+    # another configuration (with its own imports) was loaded and cleared before this one: the
+    # text depends only on the present bindings and imports
+    gin.parse_config('import string as c06earlier\nfrom email import utils as c06eu\n'
+                     'C06_EARLIER = 1\n')
+    gin.clear_config()
+    labels.add('earlier-configuration-loaded-and-cleared')
   apply(items, order)
   try:
     s1 = gin.config_str(width, indent)
@@ -595,6 +613,8 @@ def check_case(case):
       s_scoped = gin.config_str(width, indent)
   except Exception as e:  # pylint: disable=broad-except
     raise Violation('config_str-raised', f'{type(e).__name__}: {e}')
+  require(not re.search(r'c06earlier|c06eu|C06_EARLIER', s1), 'earlier-configuration-in-text',
+          lambda: f'a configuration cleared before this one was built shows in the text:\n{s1}')
   require(s_scoped == s1, 'config_str-depends-on-active-scope',
           lambda: f'--- at top level:\n{s1}\n--- inside config_scope(zs/zt):\n{s_scoped}')
   before = {}
@@ -816,14 +836,14 @@ def _value(depth=2):
 
 @st.composite
 def _dyn_case(draw):
-  imports = draw(st.lists(st.tuples(st.integers(0, 3), st.integers(0, 3),
+  imports = draw(st.lists(st.tuples(st.integers(0, 4), st.integers(0, 3),
                                     st.sampled_from(['u', 'utils', 'mm'])).map(list),
                           min_size=1, max_size=3))
   bindings = draw(st.lists(
-      st.tuples(st.integers(0, 3), st.integers(0, 1), st.sampled_from(['x', 'y']),
+      st.tuples(st.integers(0, 4), st.integers(0, 1), st.sampled_from(['x', 'y']),
                 st.integers(0, 9) | st.sampled_from(['v', [1, 2]]),
                 st.sampled_from(['text', 'late'])).map(list),
-      min_size=1, max_size=5, unique_by=lambda b: (b[0] % 4, b[1], b[2])))
+      min_size=1, max_size=5, unique_by=lambda b: (b[0] % 5, b[1], b[2])))
   refs = draw(st.lists(st.tuples(st.sampled_from(['x', 'y']), st.integers(0, 3), st.integers(0, 1),
                                  st.integers(0, 1), st.booleans()).map(list),
                        max_size=2, unique_by=lambda r: r[0]))
@@ -866,7 +886,8 @@ def _static_case(draw):
   indent = draw(st.integers(0, 8))
   width = draw(st.integers(max(5, indent + 1), 120) | st.sampled_from([20, 40, 80]))
   width = max(width, indent + 1)
-  return {'bindings': bindings, 'macros': macros, 'missing_import': draw(st.sampled_from([0, 0, 0, 1, 2])),
+  return {'bindings': bindings, 'macros': macros, 'earlier_config': draw(st.integers(0, 3)) == 0,
+          'missing_import': draw(st.sampled_from([0, 0, 0, 1, 2])),
           'late_registration': draw(st.integers(0, 2)) == 0,
           'imports': draw(st.lists(st.integers(0, len(IMPORTS) - 1), unique=True, max_size=3)),
           'perm': draw(st.integers(0, 10**6)), 'width': width, 'indent': indent}
